@@ -72,7 +72,7 @@ def run(ctx):
         if len(ps) > cap:
             ps = ps[-cap // 2:] + rng.sample(ps[:-cap // 2], cap // 2)      # keep the large ones (generated last)
         jobs += [(fam, p) for p in ps]
-    replies = ctx.model.batch([fam['request'](p) for fam, p in jobs]) if jobs else []
+    replies = ctx.model.batch([fam.get('request_spec', fam['request'])(p) for fam, p in jobs]) if jobs else []
     for (fam, p), rep in zip(jobs, replies):
         for fc in (CNF, OPB):
             r = outcome(fam['build'], p, fc)
@@ -112,7 +112,7 @@ def run(ctx):
         ('majcomp', lambda F, k: cnfgen.VariableCompression(F, cnfgen.graphs.bipartite_random_left_regular(F.number_of_variables(), k + 2, 2), function='maj'), lambda N, k, F: k + 2),
     ]
     bases = [lambda: cnfgen.PigeonholePrinciple(rng.randint(1, 5), rng.randint(1, 4)), lambda: cnfgen.OrderingPrinciple(rng.randint(1, 5)),
-             lambda: cnfgen.RandomKCNF(3, rng.randint(3, 12), rng.randint(0, 10)), lambda: cnfgen.CountingPrinciple(rng.randint(0, 6), 2),
+             lambda: cnfgen.RandomKCNF(3, rng.randint(4, 12), rng.randint(0, 10)), lambda: cnfgen.CountingPrinciple(rng.randint(0, 6), 2),
              lambda: cnfgen.RamseyNumber(3, 3, rng.randint(0, 5)), lambda: cnfgen.PebblingFormula(cnfgen.graphs.dag_pyramid(rng.randint(0, 3)))]
 
     def with_unused(F):
